@@ -671,6 +671,7 @@ func prepass(path string, fd *ast.FuncDecl) *ast.FuncDecl {
 	destructure(path, fd)
 	expandHelpers(path, fd)
 	inlineGuardClosures(fd)
+	normaliseCountedRecv(fd)
 	normaliseRecvLoops(fd)
 	normaliseNames(fd)
 	if len(fd.Body.List) != n || src(fd.Body) != before {
@@ -1204,4 +1205,115 @@ func inlineMethodHelpers(ms []*ast.FuncDecl, standard map[string]bool) []*ast.Fu
 		keep = append(keep, fd)
 	}
 	return keep
+}
+
+// Counted receive loop. In a goroutine literal started by a function that has returned early when `n <= 0` (so n >= 1
+// when the goroutine starts, n an int parameter not assigned elsewhere),
+//
+//	for c := n; c > 0; c-- { x, ok := <-ch; if !ok { return }; BODY }        (last statement of the literal)
+//
+// receives at most n elements, one per iteration, and stops before the next receive once n of them went through BODY
+// (a `return` in BODY ends the goroutine in both forms; BODY has no `continue`/`break` of this loop and mentions
+// neither c nor ok nor n). With n >= 1 that is
+//
+//	for x := range ch { BODY; n--; if n == 0 { return } }
+func normaliseCountedRecv(fd *ast.FuncDecl) {
+	// the guard: a top-level `if n <= 0 { …; return … }` (or `n < 1`) before the goroutine
+	guarded := map[string]bool{}
+	isIntParam := map[string]bool{}
+	for _, p := range fd.Type.Params.List {
+		if src(p.Type) == "int" {
+			for _, n := range p.Names {
+				isIntParam[n.Name] = true
+			}
+		}
+	}
+	for _, st := range fd.Body.List {
+		if is, ok := st.(*ast.IfStmt); ok && is.Init == nil && is.Else == nil && len(is.Body.List) > 0 {
+			if _, ret := is.Body.List[len(is.Body.List)-1].(*ast.ReturnStmt); ret {
+				if b, ok := is.Cond.(*ast.BinaryExpr); ok {
+					if i, ok := b.X.(*ast.Ident); ok && isIntParam[i.Name] &&
+						((b.Op == token.LEQ && src(b.Y) == "0") || (b.Op == token.LSS && src(b.Y) == "1")) {
+						guarded[i.Name] = true
+					}
+				}
+			}
+			continue
+		}
+		g, ok := st.(*ast.GoStmt)
+		if !ok {
+			continue
+		}
+		lit, ok := g.Call.Fun.(*ast.FuncLit)
+		if !ok || len(lit.Body.List) == 0 {
+			continue
+		}
+		last := len(lit.Body.List) - 1
+		fs, ok := lit.Body.List[last].(*ast.ForStmt)
+		if !ok || fs.Init == nil || fs.Cond == nil || fs.Post == nil || len(fs.Body.List) < 2 {
+			continue
+		}
+		init, ok := fs.Init.(*ast.AssignStmt)
+		if !ok || init.Tok != token.DEFINE || len(init.Lhs) != 1 || len(init.Rhs) != 1 {
+			continue
+		}
+		c, ok1 := init.Lhs[0].(*ast.Ident)
+		n, ok2 := init.Rhs[0].(*ast.Ident)
+		if !ok1 || !ok2 || !guarded[n.Name] || src(fs.Cond) != c.Name+" > 0" || src(fs.Post) != c.Name+"--" {
+			continue
+		}
+		// n is not mentioned anywhere else in the function after the guard, nor assigned
+		uses := 0
+		ast.Inspect(fd.Body, func(x ast.Node) bool {
+			if i, ok := x.(*ast.Ident); ok && i.Name == n.Name {
+				uses++
+			}
+			return true
+		})
+		if uses != 2 { // the guard and the loop header
+			continue
+		}
+		rv, ok := fs.Body.List[0].(*ast.AssignStmt)
+		if !ok || rv.Tok != token.DEFINE || len(rv.Lhs) != 2 || len(rv.Rhs) != 1 {
+			continue
+		}
+		u, ok := rv.Rhs[0].(*ast.UnaryExpr)
+		if !ok || u.Op != token.ARROW {
+			continue
+		}
+		x, okx := rv.Lhs[0].(*ast.Ident)
+		okv, oko := rv.Lhs[1].(*ast.Ident)
+		is, ok := fs.Body.List[1].(*ast.IfStmt)
+		if !okx || !oko || !ok || is.Init != nil || is.Else != nil || src(is.Cond) != "!"+okv.Name || len(is.Body.List) != 1 {
+			continue
+		}
+		if r, ok := is.Body.List[0].(*ast.ReturnStmt); !ok || len(r.Results) != 0 {
+			continue
+		}
+		body := fs.Body.List[2:]
+		bad := false
+		for _, s := range body {
+			ast.Inspect(s, func(y ast.Node) bool {
+				switch z := y.(type) {
+				case *ast.Ident:
+					if z.Name == c.Name || z.Name == okv.Name || z.Name == n.Name {
+						bad = true
+					}
+				case *ast.BranchStmt:
+					bad = true // continue would skip the decrement, break the test
+				case *ast.FuncLit:
+					return false
+				}
+				return true
+			})
+		}
+		if bad {
+			continue
+		}
+		nb := append(append([]ast.Stmt{}, body...),
+			&ast.IncDecStmt{X: ast.NewIdent(n.Name), Tok: token.DEC},
+			&ast.IfStmt{Cond: &ast.BinaryExpr{X: ast.NewIdent(n.Name), Op: token.EQL, Y: &ast.BasicLit{Kind: token.INT, Value: "0"}},
+				Body: &ast.BlockStmt{List: []ast.Stmt{&ast.ReturnStmt{}}}})
+		lit.Body.List[last] = &ast.RangeStmt{Key: x, Tok: token.DEFINE, X: u.X, Body: &ast.BlockStmt{List: nb}}
+	}
 }
